@@ -143,6 +143,32 @@ fn mac(m: &Macro) -> Value {
     o.insert("path".into(), json!(path_str(&m.path)));
     o.insert("tokens".into(), tokens(m.tokens.clone()));
     o.insert("text".into(), json!(m.tokens.to_string()));
+    if m.path.is_ident("matches") {
+        // matches!(scrutinee, pattern [if guard]) : also emitted in parsed form
+        let parsed = parse::Parser::parse2(
+            |input: parse::ParseStream| {
+                let e: Expr = input.parse()?;
+                input.parse::<Token![,]>()?;
+                let p = Pat::parse_multi_with_leading_vert(input)?;
+                let g = if input.peek(Token![if]) {
+                    input.parse::<Token![if]>()?;
+                    Some(input.parse::<Expr>()?)
+                } else {
+                    None
+                };
+                let _ = input.parse::<Option<Token![,]>>()?;
+                Ok((e, p, g))
+            },
+            m.tokens.clone(),
+        );
+        if let Ok((e, p, g)) = parsed {
+            o.insert("scrutinee".into(), expr(&e));
+            o.insert("mpat".into(), pat(&p));
+            if let Some(g) = g {
+                o.insert("mguard".into(), expr(&g));
+            }
+        }
+    }
     let parser = punctuated::Punctuated::<Expr, Token![,]>::parse_terminated;
     if let Ok(args) = parse::Parser::parse2(parser, m.tokens.clone()) {
         o.insert("args".into(), Value::Array(args.iter().map(expr).collect()));
